@@ -41,7 +41,7 @@ type readR struct {
 	Ms     float64 `json:"ms"`
 }
 
-var opKinds = []string{"write", "strong", "lin", "join-voter", "join-nonvoter", "remove", "stepdown", "barrier", "snapshot", "noop"}
+var opKinds = []string{"write", "strong", "lin", "join-voter", "join-nonvoter", "remove", "stepdown", "barrier", "snapshot", "noop", "install-lead"}
 
 func genOps(c *vf.Ctx, caseNo int) []string {
 	r := c.Rand(uint64(caseNo))
@@ -61,7 +61,7 @@ func genOps(c *vf.Ctx, caseNo int) []string {
 }
 
 func run(c *vf.Ctx) {
-	c.Rule("history = seeded sequence of 2-7 ops from {write, strong read, linearizable read, join voter/non-voter, remove, stepdown, barrier, user snapshot, noop} on a fresh healthy in-process cluster (1 node, growing to at most 3), followed by 3 linearizable reads 50 ms apart over HTTP on the current leader with the default timeout and no write in between; thorough also probes after every prefix. non-trivial = history whose last committed entry before the reads is not a plain write; distinct by op sequence")
+	c.Rule("history = seeded sequence of 2-7 ops from {write, strong read, linearizable read, join voter/non-voter, remove, stepdown, barrier, user snapshot, noop, log truncation + snapshot install on a new voter + leadership transfer to it} on a fresh healthy in-process cluster (1 node, growing to at most 3), followed by 3 linearizable reads 50 ms apart over HTTP on the current leader with the default timeout and no write in between; thorough also probes after every prefix. non-trivial = history whose last committed entry before the reads is not a plain write; distinct by op sequence")
 	c.Assume("healthy network (faultnet with no faults); reads go to the node that reports itself leader")
 	c.Assume("a read failing with 'not leader' right after a stepdown is retried on the new leader (leadership moved, not a C38 failure)")
 	if c.ReplayFile != "" {
@@ -259,6 +259,29 @@ func runHistory(caseNo int, ops []string, dir string) (res histResult) {
 				return fail("join: %v", err)
 			}
 			lastKind = "config-change"
+		case "install-lead":
+			// truncate the log, let a brand-new voter come up through a snapshot
+			// install, then hand leadership to it
+			if len(cl.Live()) >= 3 {
+				continue
+			}
+			if err := l.Store.Snapshot(1); err != nil && !strings.Contains(err.Error(), "nothing new to snapshot") &&
+				!strings.Contains(err.Error(), "wait until the configuration entry") && !strings.Contains(err.Error(), "no WAL data available") {
+				return fail("install-lead snapshot: %v", err)
+			}
+			id := fmt.Sprintf("n%d", nextID)
+			nextID++
+			nn, err := cl.Add(opt(id), true)
+			if err != nil {
+				return fail("install-lead join: %v", err)
+			}
+			lastKind = "config-change"
+			if !cl.WaitConverged(15 * time.Second) {
+				return fail("install-lead: new node did not catch up")
+			}
+			if err := l.Store.Stepdown(true, nn.ID); err == nil {
+				lastKind = "leader-change-after-install"
+			}
 		case "remove":
 			var victim *hcluster.Node
 			for _, n := range cl.Live() {
